@@ -10,10 +10,11 @@ pub(super) fn detect_cycles(ast: &Ast, diagnostics: &mut Diagnostics) {
     // Type aliases cannot refer to themselves through sequences, dictionaries, or results (ex: `typealias A = Sequence<A>`).
     // Such a type contains itself, so we must stop here if we find any; the checks below would never finish on them.
     let mut found_self_referential_alias = false;
+    let mut cycle_free_types = Vec::new();
     for node in ast.as_slice() {
         if let Node::TypeAlias(type_alias) = node {
             let type_alias = type_alias.borrow();
-            if anonymous_type_contains_itself(&type_alias.underlying, &mut Vec::new()) {
+            if anonymous_type_contains_itself(&type_alias.underlying, &mut Vec::new(), &mut cycle_free_types) {
                 Diagnostic::new(Error::SelfReferentialTypeAliasNeedsConcreteType {
                     identifier: type_alias.module_scoped_identifier(),
                 })
@@ -31,6 +32,8 @@ pub(super) fn detect_cycles(ast: &Ast, diagnostics: &mut Diagnostics) {
         type_being_checked: None,
         dependency_stack: Vec::new(),
         reported_cycles: HashSet::new(),
+        dead_ends: HashSet::new(),
+        loops_encountered: 0,
         diagnostics,
     };
 
@@ -59,7 +62,14 @@ pub(super) fn detect_cycles(ast: &Ast, diagnostics: &mut Diagnostics) {
 /// Returns true if the provided type is a sequence, dictionary, or result that (transitively) uses itself as one of its
 /// element types. `seen` holds the anonymous types we're currently inside. Named types are terminal for this check;
 /// cycles that run through structs and enums are found by the [`CycleDetector`].
-fn anonymous_type_contains_itself<'a>(type_ref: &'a TypeRef, seen: &mut Vec<&'a dyn Type>) -> bool {
+///
+/// `cycle_free` holds the anonymous types that were already searched without finding a cycle. They're never searched
+/// again; otherwise types that are shared through aliases would be searched once for every path that leads to them.
+fn anonymous_type_contains_itself<'a>(
+    type_ref: &'a TypeRef,
+    seen: &mut Vec<&'a dyn Type>,
+    cycle_free: &mut Vec<&'a dyn Type>,
+) -> bool {
     let element_types: Vec<&TypeRef> = match type_ref.concrete_type() {
         Types::Sequence(sequence) => vec![&sequence.element_type],
         Types::Dictionary(dictionary) => vec![&dictionary.key_type, &dictionary.value_type],
@@ -71,12 +81,19 @@ fn anonymous_type_contains_itself<'a>(type_ref: &'a TypeRef, seen: &mut Vec<&'a 
     if seen.iter().any(|seen_type| std::ptr::addr_eq(*seen_type, this_type)) {
         return true;
     }
+    if cycle_free.iter().any(|checked_type| std::ptr::addr_eq(*checked_type, this_type)) {
+        return false;
+    }
 
     seen.push(this_type);
     let contains_itself = element_types
         .into_iter()
-        .any(|element_type| anonymous_type_contains_itself(element_type, seen));
+        .any(|element_type| anonymous_type_contains_itself(element_type, seen, cycle_free));
     seen.pop();
+
+    if !contains_itself {
+        cycle_free.push(this_type);
+    }
     contains_itself
 }
 
@@ -161,6 +178,15 @@ struct CycleDetector<'a> {
     /// Stores all the cycles we've reported so far, so we can avoid reporting duplicates.
     reported_cycles: HashSet<BTreeSet<String>>,
 
+    /// Stores the type-ids of the types that were completely checked without encountering a loop.
+    /// No cycle can be reached from them (whichever type is being checked), so they aren't checked again.
+    /// Otherwise a type would be checked once for every path of fields that leads to it.
+    dead_ends: HashSet<String>,
+
+    /// Counts how many times we came back to the type being checked, or to a type we were already inside of.
+    /// A type is only a dead end if this count doesn't change while it's being checked.
+    loops_encountered: usize,
+
     /// Reference to a diagnostics struct for reporting errors.
     diagnostics: &'a mut Diagnostics,
 }
@@ -199,6 +225,7 @@ impl<'a> CycleDetector<'a> {
 
         // If the candidate's type is the type we're checking, then its definition is cyclic and we report an error.
         if self.type_being_checked.as_ref().unwrap().0 == candidate_type_string {
+            self.loops_encountered += 1;
             // We still push the offending field onto the stack so we can use it in the error message.
             self.dependency_stack.push((candidate_type_string, origin));
             self.report_cycle_error();
@@ -211,15 +238,29 @@ impl<'a> CycleDetector<'a> {
         // candidate isn't the cause of the cycle, just a link or offshoot of it.
         for (seen_type_id, _) in &self.dependency_stack {
             if seen_type_id == &candidate_type_string {
+                self.loops_encountered += 1;
                 return;
             }
         }
 
+        // If the candidate was already checked without encountering a loop, there's no need to check it again:
+        // no cycle can be reached from it.
+        if self.dead_ends.contains(&candidate_type_string) {
+            return;
+        }
+
         // If we haven't detected any cycles yet, it's safe to continue recursing.
         // Push the current field and its type onto the stack, then check the candidate's fields.
+        let loops_encountered_before = self.loops_encountered;
         self.dependency_stack.push((candidate_type_string, origin));
         candidate.check_for_cycles(self);
-        self.dependency_stack.pop();
+        let (candidate_type_string, _) = self.dependency_stack.pop().unwrap();
+
+        // If no loop was encountered while checking the candidate, every path of fields starting at it was followed
+        // to its end without coming back to a type we're inside of: the candidate is a dead end.
+        if self.loops_encountered == loops_encountered_before {
+            self.dead_ends.insert(candidate_type_string);
+        }
     }
 
     fn report_cycle_error(&mut self) {
